@@ -185,9 +185,28 @@ class Run:
         ok = "error" not in out.lower() and ("successfully" in out or "The result is" in out)
         return (not ok), out
 
+    async def _echo(self, svc, got, what):
+        """the non-blocking form of an upload returns right after sending: wait for the once-handler to be called"""
+        t0 = asyncio.get_running_loop().time()
+        while not got:
+            await asyncio.sleep(0.002)
+            ws = svc.websocket
+            if ws is not None and ws.closed:
+                raise Violation("%s: the server closed the connection during %s although its prerequisites hold" % (self.scheme, what),
+                                "%s:%s:connection_closed" % (self.scheme, what))
+            if asyncio.get_running_loop().time() - t0 > 30:
+                raise HarnessError("no echo for %s within 30 s on an open loopback connection (inconclusive)" % what)
+        await asyncio.sleep(0.01)
+
     async def op(self, step):
         kind = step[0]
         self.trace.append(step)
+        nowait = kind.endswith("_nowait")
+        if nowait and not self.cli:
+            kind = kind[:-len("_nowait")]
+        elif nowait:
+            kind, nowait = kind[:-len("_nowait")], False   # the command functions always wait
+            step = [kind] + list(step[1:])
         f = self.flags
         if self.cli and kind in ("create_invalid", "create"):
             before = self.client_dirs()
@@ -273,6 +292,18 @@ class Run:
                     svc.handle_create_key()
                 elif kind == "encrypt":
                     svc.handle_encrypt_database(copy.deepcopy(self.db))
+                elif kind == "upload_config" and nowait:
+                    from frontend.common.constants import MsgType
+                    got_echo = []
+                    svc.register_echo_handler_once(MsgType.CONFIG, lambda c: got_echo.append(c))
+                    await svc.handle_upload_config()          # default form: returns after sending
+                    await self._echo(svc, got_echo, "upload_config")
+                elif kind == "upload_edb" and nowait:
+                    from frontend.common.constants import MsgType
+                    got_echo = []
+                    svc.register_echo_handler_once(MsgType.UPLOAD_DB, lambda c: got_echo.append(c))
+                    await svc.handle_upload_encrypted_database()
+                    await self._echo(svc, got_echo, "upload_edb")
                 elif kind == "upload_config":
                     await _guarded(svc, svc.handle_upload_config(wait=True, wait_callback_func=lambda fu: None), "upload_config", self.scheme)
                 elif kind == "upload_edb":
@@ -371,7 +402,7 @@ def st_case(draw, schemes, max_ops):
     spec = draw(S.st_db_spec(desc, cfg, max_total=20, max_kw=3))
     op = st.one_of(
         st.sampled_from([["genkey"], ["encrypt"], ["upload_config"], ["upload_edb"], ["create_again"], ["create_same_salt"],
-                         ["create_missing_file"]]),
+                         ["create_missing_file"], ["upload_config_nowait"], ["upload_edb_nowait"]]),
         st.tuples(st.just("search"), st.integers(0, 5)).map(list),
         st.tuples(st.just("create_invalid"), st.sampled_from(INVALID_KINDS)).map(list))
     pre = draw(st.lists(st.tuples(st.just("create_invalid"), st.sampled_from(INVALID_KINDS)).map(list), max_size=2))
@@ -379,7 +410,8 @@ def st_case(draw, schemes, max_ops):
         # a complete workflow (either order of the independent prefixes) with noise operations inserted anywhere
         plan = draw(st.sampled_from([["genkey", "encrypt", "upload_config", "upload_edb"], ["upload_config", "genkey", "encrypt", "upload_edb"],
                                      ["genkey", "upload_config", "encrypt", "upload_edb"]]))
-        seq = [[p] for p in plan] + [["search", draw(st.integers(0, 5))] for _ in range(draw(st.integers(1, 3)))]
+        seq = [[p + ("_nowait" if p.startswith("upload") and draw(st.integers(0, 2)) == 0 else "")] for p in plan]
+        seq += [["search", draw(st.integers(0, 5))] for _ in range(draw(st.integers(1, 3)))]
         noise = draw(st.lists(op, max_size=max(1, max_ops - len(seq))))
         for nz in noise:
             seq.insert(draw(st.integers(0, len(seq))), nz)
